@@ -876,6 +876,9 @@ Proof.
   rewrite (ml_del_at_detach' w old i v Hnd (index_of_nth v (kids w old) i Hi)). reflexivity.
 Qed.
 
+Lemma has_cache_add w ir n x : has (cache_add w ir n) x = has w x. Proof. reflexivity. Qed.
+Lemma kindof_cache_add w ir n x : kindof (cache_add w ir n) x = kindof w x. Proof. reflexivity. Qed.
+
 Lemma remove_hook_virtual w known ir Lv v :
   Forest (with_kids w ir Lv) known -> CacheInv (with_kids w ir Lv) -> is_k w ir KIR = true -> In v Lv ->
   Forest (with_kids (fst (ml_remove_hook w ir v)) ir (remove_id v Lv)) known /\
@@ -902,7 +905,8 @@ Lemma add_hook_virtual w known ir Lv v L' :
   ~ In v Lv -> NoDup L' -> (forall x, In x L' <-> x = v \/ In x Lv) ->
   Forest (with_kids (fst (ml_add_hook w ir v)) ir L') known /\
   CacheInv (with_kids (fst (ml_add_hook w ir v)) ir L') /\
-  snd (ml_add_hook w ir v) = true.
+  snd (ml_add_hook w ir v) = true /\
+  (forall x k, is_k (fst (ml_add_hook w ir v)) x k = is_k w x k).
 Proof.
   intros F C G Gv Hnv HL HLin. apply is_k_spec in G. destruct G as [Hir Kir]. apply is_k_spec in Gv. destruct Gv as [Hv Kv].
   set (W := with_kids w ir Lv) in *.
@@ -941,5 +945,217 @@ Proof.
       eapply weq_trans; [apply weq_with_kids; apply weq_cache_add; apply weq_set_par; exact H1|].
       eapply weq_trans; [apply weq_with_kids; apply add_tail_with_kids; exact Hs2|].
       apply with_kids_twice. }
-    split; [eapply Forest_weq; eassumption|]. split; [eapply CacheInv_weq; eassumption|]. congruence.
+    split; [eapply Forest_weq; eassumption|]. split; [eapply CacheInv_weq; eassumption|]. split; [congruence|].
+    assert (Hhw : forall x, has (pre_detach w v) x = has w x).
+    { intro x. pose proof (weq_has _ _ x H1) as Hq. rewrite has_with_kids in Hq. rewrite <- Hq. apply Hh. }
+    assert (Hkw : forall x, kindof (pre_detach w v) x = kindof w x).
+    { intro x. pose proof (weq_kindof _ _ x H1) as Hq. rewrite kindof_with_kids in Hq. rewrite <- Hq. apply Hk. }
+    intros x k. unfold is_k. rewrite has_cache_add, kindof_cache_add, kindof_set_par, Hkw.
+    rewrite has_set_par by (rewrite Hhw; exact Hv). rewrite Hhw. reflexivity.
+Qed.
+
+Lemma virtual_start w known ir :
+  Forest w known -> CacheInv w -> Forest (with_kids w ir (kids w ir)) known /\ CacheInv (with_kids w ir (kids w ir)).
+Proof.
+  intros F C. split.
+  - eapply Forest_weq; [apply weq_sym; apply with_kids_id|exact F].
+  - eapply CacheInv_weq; [apply weq_sym; apply with_kids_id|exact C].
+Qed.
+
+Lemma is_k_remove_hook w ir v x k : has w v = true -> is_k (fst (ml_remove_hook w ir v)) x k = is_k w x k.
+Proof. intro H. unfold is_k. rewrite (has_remove_hook w ir v x H), kindof_remove_hook. reflexivity. Qed.
+
+Lemma kids_ml_del_at w ir i p : p <> ir -> kids (fst (ml_del_at w ir i)) p = kids w p.
+Proof.
+  intro H. unfold ml_del_at. destruct (nth_error (kids w ir) i) as [v|]; [|reflexivity].
+  destruct (ml_remove_hook w ir v) as [w1 ok] eqn:E. cbn [fst kids set_kids]. rewrite upd_other by exact H.
+  change w1 with (fst (w1, ok)). rewrite <- E. reflexivity.
+Qed.
+
+Lemma kids_ml_add_hook w ir v p : par w v <> Some p -> kids (fst (ml_add_hook w ir v)) p = kids w p.
+Proof.
+  intro H. unfold ml_add_hook. destruct (par w v) as [old|] eqn:E; [|reflexivity].
+  assert (Hne : p <> old) by congruence. unfold ml_remove.
+  destruct (index_of v (kids w old)) as [i|]; [|reflexivity].
+  pose proof (kids_ml_del_at w old i p Hne) as Hk. destruct (ml_del_at w old i) as [w1 ok]. exact Hk.
+Qed.
+
+(* ---- set item ---- *)
+Lemma step_setitem w ir i v k old :
+  norm_index i (length (kids w ir)) = Some k -> nth_error (kids w ir) k = Some old ->
+  mem v (kids w ir) && negb (v =? old) = false ->
+  step w (OModSetItem ir i v) =
+  flagged (with_kids (fst (ml_add_hook (fst (ml_remove_hook w ir old)) ir v)) ir
+             (set_at k v (kids (fst (ml_add_hook (fst (ml_remove_hook w ir old)) ir v)) ir)),
+           snd (ml_remove_hook w ir old) && snd (ml_add_hook (fst (ml_remove_hook w ir old)) ir v)).
+Proof.
+  intros H1 H2 H3. cbn [step]. rewrite H1, H2, H3.
+  destruct (ml_remove_hook w ir old) as [w1 ok1]. cbn [fst snd]. destruct (ml_add_hook w1 ir v) as [w2 ok2]. reflexivity.
+Qed.
+
+Lemma setitem_main w known ir v k old :
+  Forest w known -> CacheInv w -> is_k w ir KIR = true -> is_k w v KMod = true ->
+  nth_error (kids w ir) k = Some old -> (~ In v (kids w ir) \/ v = old) ->
+  let w1 := fst (ml_remove_hook w ir old) in
+  let w2 := fst (ml_add_hook w1 ir v) in
+  Forest (with_kids w2 ir (set_at k v (kids w ir))) known /\ CacheInv (with_kids w2 ir (set_at k v (kids w ir))) /\
+  snd (ml_remove_hook w ir old) = true /\ snd (ml_add_hook w1 ir v) = true /\ kids w2 ir = kids w ir.
+Proof.
+  intros F C G Gv Ho Hv w1 w2.
+  destruct (virtual_start w known ir F C) as [F0 C0].
+  assert (Hoin : In old (kids w ir)) by (eapply nth_error_In; exact Ho).
+  assert (Hho : has w old = true).
+  { apply (f_two_ended w known F) in Hoin. apply (f_kind w known F ir old Hoin). }
+  destruct (remove_hook_virtual w known ir (kids w ir) old F0 C0 G Hoin) as [F1 [C1 Hf1]]. fold w1 in F1, C1.
+  assert (G1 : is_k w1 ir KIR = true) by (unfold w1; rewrite is_k_remove_hook; assumption).
+  assert (Gv1 : is_k w1 v KMod = true) by (unfold w1; rewrite is_k_remove_hook; assumption).
+  assert (Hnd : NoDup (kids w ir)) by apply (f_nodup w known F).
+  assert (Hnv : ~ In v (remove_id old (kids w ir))).
+  { rewrite In_remove_id. intros [H1 H2]. destruct Hv as [Hv|Hv]; contradiction. }
+  destruct (add_hook_virtual w1 known ir (remove_id old (kids w ir)) v (set_at k v (kids w ir)) F1 C1 G1 Gv1 Hnv) as [F2 [C2 [Hf2 _]]].
+  - apply (NoDup_set_at (kids w ir) k v old Hnd Ho Hv).
+  - intro x. rewrite (In_set_at_nodup (kids w ir) k v old x Hnd Ho), In_remove_id. reflexivity.
+  - fold w2 in F2, C2. refine (conj F2 (conj C2 (conj Hf1 (conj Hf2 _)))).
+    unfold w2. rewrite kids_ml_add_hook; [reflexivity|].
+    intro E. change (par w1 v) with (par (with_kids w1 ir (remove_id old (kids w ir))) v) in E.
+    apply (f_two_ended _ known F1) in E. rewrite kids_with_kids_same in E. contradiction.
+Qed.
+
+Lemma good_setitem w known ir i v :
+  Forest w known -> CacheInv w -> op_okb w known (OModSetItem ir i v) = true -> Good w known (OModSetItem ir i v).
+Proof.
+  intros F C G. cbn [op_okb] in G. apply andb_true_iff in G. destruct G as [G1 G2].
+  destruct (norm_index i (length (kids w ir))) as [k|] eqn:En.
+  2:{ apply (good_err w known _ EIndex); [cbn [step]; rewrite En; reflexivity|discriminate|reflexivity|exact F|exact C]. }
+  destruct (nth_error (kids w ir) k) as [old|] eqn:Eo.
+  2:{ apply (good_err w known _ EImpossible); [cbn [step]; rewrite En, Eo; reflexivity|discriminate|reflexivity|exact F|exact C]. }
+  destruct (mem v (kids w ir) && negb (v =? old)) eqn:Ec.
+  { apply (good_err w known _ EImpossible); [cbn [step]; rewrite En, Eo, Ec; reflexivity|discriminate|reflexivity|exact F|exact C]. }
+  assert (Hv : ~ In v (kids w ir) \/ v = old).
+  { apply andb_false_iff in Ec. destruct Ec as [Ec|Ec].
+    - left. apply mem_false. exact Ec.
+    - right. apply negb_false_iff in Ec. apply Z.eqb_eq. exact Ec. }
+  destruct (setitem_main w known ir v k old F C G1 G2 Eo Hv) as [F2 [C2 [Hf1 [Hf2 Hk]]]].
+  pose proof (step_setitem w ir i v k old En Eo Ec) as Hs. rewrite Hk, Hf1, Hf2 in Hs. cbn [andb flagged] in Hs.
+  apply (good_ok w known _ _ Hs); assumption.
+Qed.
+
+(* ================================================================== *)
+(* loops                                                               *)
+(* ================================================================== *)
+
+Lemma kids_remove_hooks_fold ir vs : forall w, kids (fst (fold_ok (fun w v => ml_remove_hook w ir v) vs w)) = kids w.
+Proof.
+  induction vs as [|v vs IH]; intro w; [reflexivity|]. rewrite fold_ok_cons. cbn [fst]. rewrite IH. reflexivity.
+Qed.
+
+Lemma remove_hooks_fold known ir vs : forall w Lv,
+  Forest (with_kids w ir Lv) known -> CacheInv (with_kids w ir Lv) -> is_k w ir KIR = true ->
+  NoDup vs -> (forall v, In v vs -> In v Lv) ->
+  Forest (with_kids (fst (fold_ok (fun w v => ml_remove_hook w ir v) vs w)) ir (fold_left (fun l v => remove_id v l) vs Lv)) known /\
+  CacheInv (with_kids (fst (fold_ok (fun w v => ml_remove_hook w ir v) vs w)) ir (fold_left (fun l v => remove_id v l) vs Lv)) /\
+  snd (fold_ok (fun w v => ml_remove_hook w ir v) vs w) = true /\
+  (forall x k, is_k (fst (fold_ok (fun w v => ml_remove_hook w ir v) vs w)) x k = is_k w x k).
+Proof.
+  induction vs as [|v vs IH]; intros w Lv F C G Hnd Hin.
+  - rewrite fold_ok_nil. cbn [fst snd fold_left]. auto.
+  - rewrite fold_ok_cons. cbn [fst snd fold_left].
+    assert (Hv : In v Lv) by (apply Hin; left; reflexivity).
+    destruct (remove_hook_virtual w known ir Lv v F C G Hv) as [F1 [C1 Hf1]].
+    assert (Hhv : has w v = true).
+    { assert (Hp : par (with_kids w ir Lv) v = Some ir).
+      { apply (f_two_ended _ known F). rewrite kids_with_kids_same. exact Hv. }
+      apply (f_kind _ known F ir v Hp). }
+    inversion Hnd as [|v' vs' Hv' Hnd']. subst.
+    destruct (IH (fst (ml_remove_hook w ir v)) (remove_id v Lv) F1 C1) as [F2 [C2 [Hf2 Hk2]]].
+    + rewrite is_k_remove_hook; assumption.
+    + exact Hnd'.
+    + intros x Hx. apply In_remove_id. split; [apply Hin; right; exact Hx|]. intro E. subst. contradiction.
+    + refine (conj F2 (conj C2 (conj _ _))).
+      * rewrite Hf1, Hf2. reflexivity.
+      * intros x k. rewrite Hk2. apply is_k_remove_hook. exact Hhv.
+Qed.
+
+Lemma NoDup_middle {X} (a b : list X) v : NoDup (a ++ b) -> ~ In v (a ++ b) -> NoDup ((a ++ [v]) ++ b).
+Proof.
+  intros H Hv. rewrite <- app_assoc. cbn [app]. apply (NoDup_Add (Add_app v a b)). split; assumption.
+Qed.
+
+Lemma add_hooks_fold known ir vs : forall w A B,
+  Forest (with_kids w ir (A ++ B)) known -> CacheInv (with_kids w ir (A ++ B)) -> is_k w ir KIR = true ->
+  (forall v, In v vs -> is_k w v KMod = true) -> NoDup vs -> (forall v, In v vs -> ~ In v (A ++ B)) ->
+  Forest (with_kids (fst (fold_ok (fun w v => ml_add_hook w ir v) vs w)) ir (A ++ vs ++ B)) known /\
+  CacheInv (with_kids (fst (fold_ok (fun w v => ml_add_hook w ir v) vs w)) ir (A ++ vs ++ B)) /\
+  snd (fold_ok (fun w v => ml_add_hook w ir v) vs w) = true /\
+  (forall x k, is_k (fst (fold_ok (fun w v => ml_add_hook w ir v) vs w)) x k = is_k w x k).
+Proof.
+  induction vs as [|v vs IH]; intros w A B F C G Gv Hnd Hnin.
+  - rewrite fold_ok_nil. cbn [fst snd app]. auto.
+  - rewrite fold_ok_cons. cbn [fst snd].
+    assert (Hv : ~ In v (A ++ B)) by (apply Hnin; left; reflexivity).
+    assert (HndAB : NoDup (A ++ B)).
+    { pose proof (f_nodup _ known F ir) as H. rewrite kids_with_kids_same in H. exact H. }
+    inversion Hnd as [|v' vs' Hv' Hnd']. subst.
+    destruct (add_hook_virtual w known ir (A ++ B) v ((A ++ [v]) ++ B) F C G (Gv v (or_introl eq_refl)) Hv)
+      as [F1 [C1 [Hf1 Hk1]]].
+    + apply NoDup_middle; assumption.
+    + intro x. rewrite !in_app_iff. cbn [In]. split.
+      * intros [[H|[H|[]]]|H]; [right; left; exact H|left; symmetry; exact H|right; right; exact H].
+      * intros [H|[H|H]]; [left; right; left; symmetry; exact H|left; left; exact H|right; exact H].
+    + destruct (IH (fst (ml_add_hook w ir v)) (A ++ [v]) B F1 C1) as [F2 [C2 [Hf2 Hk2]]].
+      * rewrite Hk1. exact G.
+      * intros x Hx. rewrite Hk1. apply Gv. right. exact Hx.
+      * exact Hnd'.
+      * intros x Hx Hi. rewrite !in_app_iff in Hi. cbn [In] in Hi. destruct Hi as [[Hi|[Hi|[]]]|Hi].
+        -- apply (Hnin x); [right; exact Hx|]. apply in_or_app. left. exact Hi.
+        -- subst. contradiction.
+        -- apply (Hnin x); [right; exact Hx|]. apply in_or_app. right. exact Hi.
+      * rewrite <- app_assoc in F2, C2. cbn [app] in F2, C2.
+        refine (conj F2 (conj C2 (conj _ _))).
+        -- rewrite Hf1, Hf2. reflexivity.
+        -- intros x k. rewrite Hk2. apply Hk1.
+Qed.
+
+(* is_k through a full insert *)
+Lemma insert_is_k w known ir i v :
+  Forest w known -> CacheInv w -> is_k w v KMod = true ->
+  forall x k, is_k (fst (ml_insert w ir i v)) x k = is_k w x k.
+Proof.
+  intros F C Hv x k. apply is_k_spec in Hv. destruct Hv as [Hv Kv].
+  rewrite (ml_insert_eq w known ir i v F). cbn [fst].
+  destruct (pre_detach_inv w known v F C Hv Kv) as [_ [_ [_ [_ [Hh Hk]]]]].
+  unfold is_k. rewrite has_attach by (rewrite Hh; exact Hv). rewrite kindof_attach, Hh, Hk. reflexivity.
+Qed.
+
+(* ---- extend ---- *)
+Lemma extend_fold known ir vs : forall w,
+  Forest w known -> CacheInv w -> is_k w ir KIR = true -> (forall v, In v vs -> is_k w v KMod = true) ->
+  Forest (fst (fold_ok (fun w v => ml_append w ir v) vs w)) known /\
+  CacheInv (fst (fold_ok (fun w v => ml_append w ir v) vs w)) /\
+  snd (fold_ok (fun w v => ml_append w ir v) vs w) = true.
+Proof.
+  induction vs as [|v vs IH]; intros w F C G Gv.
+  - rewrite fold_ok_nil. cbn [fst snd]. auto.
+  - rewrite fold_ok_cons. cbn [fst snd].
+    assert (Ha : ml_append w ir v = ml_insert w ir (Z.of_nat (length (kids w ir))) v) by reflexivity. rewrite Ha.
+    assert (Hv : is_k w v KMod = true) by (apply Gv; left; reflexivity).
+    destruct (insert_inv w known ir (Z.of_nat (length (kids w ir))) v F C G Hv) as [F1 [C1 Hf1]].
+    pose proof (insert_is_k w known ir (Z.of_nat (length (kids w ir))) v F C Hv) as Hk.
+    destruct (IH (fst (ml_insert w ir (Z.of_nat (length (kids w ir))) v)) F1 C1) as [F2 [C2 Hf2]].
+    + rewrite Hk. exact G.
+    + intros x Hx. rewrite Hk. apply Gv. right. exact Hx.
+    + refine (conj F2 (conj C2 _)). rewrite Hf1. exact Hf2.
+Qed.
+
+Lemma step_extend w ir vs : step w (OModExtend ir vs) = flagged (fold_ok (fun w v => ml_append w ir v) vs w).
+Proof. reflexivity. Qed.
+
+Lemma good_extend w known ir vs :
+  Forest w known -> CacheInv w -> op_okb w known (OModExtend ir vs) = true -> Good w known (OModExtend ir vs).
+Proof.
+  intros F C G. cbn [op_okb] in G. apply andb_true_iff in G. destruct G as [G1 G2].
+  rewrite forallb_forall in G2.
+  destruct (extend_fold known ir vs w F C G1 G2) as [F' [C' Hf]].
+  apply (good_ok w known _ (fst (fold_ok (fun w v => ml_append w ir v) vs w))); [|exact F'|exact C'].
+  rewrite step_extend. apply flagged_true. exact Hf.
 Qed.
